@@ -21,6 +21,7 @@ type NodeOpts struct {
 	HBFast       bool                 // transport uses the heartbeat fast path
 	NoPreVote    bool                 // transport does not implement WithPreVote
 	ApplyDelay   time.Duration        // FSM.Apply takes this long (virtual)
+	ApplyDelayFn func() time.Duration // if set, overrides ApplyDelay (evaluated per call)
 	PersistDelay time.Duration
 	LogOutput    io.Writer
 }
@@ -300,8 +301,15 @@ func (f *RecFSM) iface() raft.FSM {
 	return fsmPlain{f}
 }
 
+func (f *RecFSM) delay() time.Duration {
+	if fn := f.in.Opts.ApplyDelayFn; fn != nil {
+		return fn()
+	}
+	return f.in.Opts.ApplyDelay
+}
+
 func (f *RecFSM) Apply(l *raft.Log) interface{} {
-	if d := f.in.Opts.ApplyDelay; d > 0 {
+	if d := f.delay(); d > 0 {
 		time.Sleep(d)
 	}
 	return f.applyOne(l, "Apply")
@@ -330,7 +338,7 @@ func (f *RecFSM) applyOne(l *raft.Log, how string) interface{} {
 }
 
 func (f *RecFSM) applyBatch(ls []*raft.Log) []interface{} {
-	if d := f.in.Opts.ApplyDelay; d > 0 {
+	if d := f.delay(); d > 0 {
 		time.Sleep(d)
 	}
 	out := make([]interface{}, len(ls))
